@@ -253,7 +253,9 @@ func (k *c19) computeRequires() {
 					evset[e] = true
 				}
 				pp := fmt.Sprintf("$%d", i)
+				k.c.nameHandedOn = true
 				ok, _, _ := k.c.Guard(f, nil, cmpReject(pp+" == nil rejected", token.EQL, pathIs(pp), pathIs("nil")), func(in ssa.Instruction) bool { return evset[in] })
+				k.c.nameHandedOn = false
 				if !ok {
 					if k.requires[f] == nil {
 						k.requires[f] = map[int]bool{}
@@ -479,7 +481,9 @@ func (k *c19) nilDerefs(f *ssa.Function) {
 		for _, e := range events {
 			evset[e] = true
 		}
+		c.nameHandedOn = true
 		ok2, w, _ := c.Guard(f, nil, cmpReject(pp+" == nil rejected", token.EQL, pathIs(pp), pathIs("nil")), func(in ssa.Instruction) bool { return evset[in] })
+		c.nameHandedOn = false
 		if !ok2 {
 			if why, rv := k.isReviewed(f, "deref "+pp, events[0]); rv {
 				k.obl("C19.N", key, true, events[0].Pos(), "REVIEWED — "+why)
